@@ -181,7 +181,8 @@ impl Prop for Repair {
             max_total: small_total,
             interleave: rng.chance(2, 3),
             flushes: rng.chance(1, 3),
-            special_names: false,
+            // one run in four also uses the empty name and, rarely, a 65536-byte name
+            special_names: rng.chance(1, 4),
             finalize: true,
             piece_scheds: false,
         };
